@@ -256,6 +256,8 @@ pub const ELEM_FNS: &[FnSpec] = &[
     FnSpec { name: "ln_1p", dom: &[(-0.9, 20.0)] },
     FnSpec { name: "sin", dom: &[(-10.0, 10.0)] },
     FnSpec { name: "cos", dom: &[(-10.0, 10.0)] },
+    FnSpec { name: "sin_cos.0", dom: &[(-10.0, 10.0)] },
+    FnSpec { name: "sin_cos.1", dom: &[(-10.0, 10.0)] },
     FnSpec { name: "tan", dom: &[(-1.45, 1.45), (1.7, 4.6), (-4.6, -1.7)] },
     FnSpec { name: "sinh", dom: &[(-4.0, 4.0)] },
     FnSpec { name: "cosh", dom: &[(-4.0, 4.0)] },
@@ -315,7 +317,9 @@ impl<'a> TypeFn for Sweep<'a> {
         let mut rng = Rng(self.seed ^ (T::KEY.len() as u64 * 0x9E37) ^ 0xABCDEF);
         let kind = self.table.ty["k"].as_str().unwrap_or("");
         for f in self.fns {
-            let tower = self.tabs.towers.get(f.name).ok_or_else(|| format!("no tower for {}", f.name))?;
+            // sin_cos returns the pair (sin, cos): each component is judged against the tower of its own function
+            let tower_name = match f.name { "sin_cos.0" => "sin", "sin_cos.1" => "cos", n => n };
+            let tower = self.tabs.towers.get(tower_name).ok_or_else(|| format!("no tower for {}", f.name))?;
             for s in 0..self.samples {
                 let par = Params { base: 3.5, n: 0.0, j0: None, j1: None };
                 // operand: real part in the domain, every other location random
